@@ -196,8 +196,8 @@ End LambdaFloor.
 Section MagSingular.
 Open Scope R_scope.
 Variable m2c : R -> R -> R.         (* lenstronomy magnitude2cps(magnitude, zero point): arbitrary *)
-Definition vec (l : list R) := VList (map num l).
-Definition mat (l : list (list R)) := VList (map vec l).
+Definition vec (l : list R) := VArr (map num l).
+Definition mat (l : list (list R)) := VArr (map (fun r => VList (map num r)) l).
 Definition gsing : list (string * callee) :=
   [("np.linalg.inv", COracle (fun _ _ _ => Exc "LinAlgError"));
    ("magnitude2cps", COracle (fun args kws w => match field_get "magnitude" kws, field_get "magnitude_zero_point" kws with
